@@ -89,4 +89,35 @@ theorem C12_fnbatch_lost_witness :
     Ref.batchedOKB true (applyAdd1 2) 0 fiveCols = false := by
   decide +kernel
 
+/-! ## SC12c — a RESUMABLE outermost object does not end at the first error (seeded change C12-m5)
+
+The chain `map(f, [0, 1, 2])` where `f` fails for 1 (built-in `map`: `Iter.mapEv`, resumable), held
+(a) bare, as `return iter(result)` would hand it out, (b) inside the generator object that `iter_fn`
+really is (`yield from result`).  The caller loops until the error (both: value 0, then the error),
+then calls `next()` twice more on the same object. -/
+
+def failAt1 (v : Val) : Ev Val :=
+  match v with
+  | .int 1 => .error { kind := .value, cause := some .key }
+  | v => .ok v
+
+def mapChain : List (Ev Val) := mapEv failAt1 [.ok (.int 0), .ok (.int 1), .ok (.int 2)]
+
+/-- (a) the bare, resumable chain: after the error the next call DELIVERS the element behind the failing
+one (then `StopIteration`) — the first error is not final; -/
+theorem C12_resumable_chain_goes_on_witness :
+    (consume Impl.bareNext 4 mapChain).1.length = 1 ∧
+    (consume Impl.bareNext 4 mapChain).2.1 = some { kind := .value, cause := some .key } ∧
+    ((calls Impl.bareNext 2 (consume Impl.bareNext 4 mapChain).2.2).1.map fun c =>
+        match c with | some (.ok (.int i)) => some i | _ => none) = [some 2, none] := by
+  decide +kernel
+
+/-- (b) the generator object around the same chain: the same value and the same error, then
+`StopIteration` for ever (instance of `C12_generator_is_final`). -/
+theorem C12_generator_chain_final_witness :
+    (consume Impl.pipeNext 4 (some mapChain)).1.length = 1 ∧
+    (consume Impl.pipeNext 4 (some mapChain)).2.1 = some { kind := .value, cause := some .key } ∧
+    ((calls Impl.pipeNext 2 (consume Impl.pipeNext 4 (some mapChain)).2.2).1.map Option.isSome) = [false, false] := by
+  decide +kernel
+
 end MlModel.C12
